@@ -7,10 +7,11 @@ Require Import Verif.DataModel.DmShapeTypes Verif.DataModel.DmModel Verif.Gen.Dm
 
 Definition fixed_shape : shape := {|
   sh_rel_key := FullSplit; sh_prim_key := LastToken; sh_tuple_key := FullSplit; sh_enum_key := FullSplit;
-  sh_rel_target := TargetAppPath; sh_rel_checks_target := true;
+  sh_rel_target := TargetAppPath; sh_rel_guards_short_path := true; sh_rel_checks_target := true;
   sh_rel_count_new := CountConst 1; sh_rel_count_again := CountInc 1;
   sh_tuple_count_new := CountConst 1; sh_tuple_count_again := CountInc 1;
-  sh_dispatch := [KRelation; KTuple; KPrimitive; KEnum]
+  sh_dispatch := [KRelation; KTuple; KPrimitive; KEnum];
+  sh_view := ViewAppEq
 |}.
 
 Lemma shape_current : shape_of_source = fixed_shape.
